@@ -505,4 +505,7 @@ def to_z3(v):
         return z3.RealVal(str(fr))
     if isinstance(v, str):
         return lit(v)
+    from fractions import Fraction as _Fr
+    if isinstance(v, _Fr):
+        return z3.RealVal(str(v))
     raise TypeError(f"cannot coerce {v!r} to z3")
